@@ -19,4 +19,7 @@ def run(ctx):
     obs += cp.source_token_rules(ctx, 'C19')
     # every rewrite works on tokens: no source text is copied into the output (wave 10; shared by the stylesheet packs)
     obs += cp.tokens_only_rule(ctx, 'C19')
+    # wave 10: the tokens synthesised for a converted `:host` rule point at the rule (shared with C17)
+    import re as _re
+    obs += [o for o in cp.host_rules(ctx, 'C19') if _re.search(r'host-selector/position', o['key'])]
     return obs
